@@ -23,9 +23,9 @@ func init() {
 		Real: "real: all of kvql from /repo's working tree; simulated: storage engine (SimStorage), caller (poll driver), reference model (Go map)",
 		NCases: func(tier string) int {
 			if tier == "thorough" {
-				return 300000
+				return 3000000
 			}
-			return 12000
+			return 60000
 		},
 		Gen:    genC12,
 		Run:    runC12,
